@@ -95,6 +95,13 @@ def run(rep: common.Report, tier: str, seed: int, replay=None) -> int:
                 B3 = np.array([[rng.gauss(0, 1) for _ in range(dim)] for _ in range(3)])
                 if np.max(np.abs(distance.cdist(A3, B3, metric) - scd(A3, B3, metric))) > 1e-12:
                     rep.violation("distance.cdist differs from the pointwise (squared) Euclidean distance", {"metric": metric, "dim": dim})
+                # points given as integers (lists of ints are ordinary input), in either position
+                Ai = np.array([[rng.randint(-4, 4) for _ in range(dim)] for _ in range(5)])
+                Bi = np.array([[rng.randint(-4, 4) for _ in range(dim)] for _ in range(3)])
+                for XA_, XB_, kinds_ in ((Ai, B3, "int/float"), (A3, Bi, "float/int"), (Ai, Bi, "int/int")):
+                    if np.max(np.abs(np.asarray(distance.cdist(XA_, XB_, metric), dtype=float) - scd(XA_, XB_, metric))) > 1e-12:
+                        rep.violation("distance.cdist of integer-typed points differs from the pointwise (squared) Euclidean distance",
+                                      {"metric": metric, "dim": dim, "dtypes": kinds_})
         rep.count(1)
         rep.nontrivial((lu, cu, z0 != 0))
         if ci < 3:
@@ -154,6 +161,15 @@ def run(rep: common.Report, tier: str, seed: int, replay=None) -> int:
             Ac = sum(np.asarray(v) for k_, v in Agot.items() if k_ != "applied")
             if np.max(np.abs(Ac[:, :2] - Aref)) > 1e-8 * float(np.max(np.abs(Aref)) + 1e-300):
                 rep.violation("vector potential from the currents differs from the direct Coulomb-kernel sum (SI)", case)
+            # evaluation points given as integers (e.g. a Python list of ints) are the same points
+            Pint = np.array([[2, -1, 1], [-3, 1, 2], [0, 0, -1], [1, 2, 3]])
+            Ai_ = sol.vector_potential_at_position(Pint, units="T * m", return_sum=True, with_units=False)
+            Af_ = sol.vector_potential_at_position(Pint.astype(float), units="T * m", return_sum=True, with_units=False)
+            Bi_ = sol.field_at_position(Pint, vector=True, units="tesla", with_units=False)
+            Bf_ = sol.field_at_position(Pint.astype(float), vector=True, units="tesla", with_units=False)
+            if np.max(np.abs(np.asarray(Ai_) - np.asarray(Af_))) > 1e-12 * float(np.max(np.abs(Af_)) + 1e-300) or \
+                    np.max(np.abs(np.asarray(Bi_) - np.asarray(Bf_))) > 1e-12 * float(np.max(np.abs(Bf_)) + 1e-300):
+                rep.violation("field / vector potential at integer-typed evaluation points differ from the same points given as floats", case)
             # the applied part, in SI and in the default units, against the applied-potential parameter evaluated at the
             # same points (its gauge is centred on the set of points it is given) and converted by hand
             f_si = ureg(f"{fu} * {dev.length_units}").to("T * m").magnitude
